@@ -29,7 +29,7 @@ ASSUMPTIONS = [
   "solver outputs compared to 2e-3 (Newton) / 2e-2 (CG, whose iterates are far more sensitive to the summation order) of their scale; worlds that hit the iteration limit are judged on everything except solver outputs",
   "RK4 is not generated: its contacts/rows are those of the last sub-stage, whose state already carries the solver round-off of the earlier stages",
 ]
-BUDGET = {"quick": dict(examples=200, seconds=150, workers=16), "thorough": dict(examples=5000, seconds=1500, workers=16)}
+BUDGET = {"quick": dict(examples=200, seconds=420, workers=16), "thorough": dict(examples=5000, seconds=1500, workers=16)}
 
 _CAP = int(OT.NEFC | OT.NJMAX_NNZ | OT.BROADPHASE | OT.NARROWPHASE | OT.CCD | OT.NVMAX | OT.HFIELD | OT.EPA_HORIZON | OT.CONTACT_MATCH)
 _SMOOTH = ["xpos", "xquat", "subtree_com", "cinert", "crb", "qfrc_bias", "qfrc_passive", "qfrc_actuator", "actuator_force", "ten_length", "cvel"]
